@@ -12,14 +12,17 @@ Local Open Scope N_scope.
    p_read  : 0 bug.Read returned the bug, 1 returned an error, 2 panicked
    p_merge : 0 MergeAll reported "new" and the bug is now local, 1 reported "invalid" and nothing became local,
              2 not run (the read panicked; MergeAll would panic in a goroutine), 3 anything else *)
-Record probe := mkprobe { p_time : N; p_signer : option N; p_altered : bool; p_read : N; p_merge : N }.
+(* p_empty: the commit carries no operation (its author signs it but is the author of nothing) *)
+Record probe := mkprobe { p_time : N; p_signer : option N; p_altered : bool; p_empty : bool; p_read : N; p_merge : N }.
 
 (* a bug created through the normal API by the author loaded from git, with the private parts of w_have in the keyring;
    w_time is the edit time the implementation gave the commit (0 if nothing was written);
    w_out : 0 written and read back, 1 written but rejected on read-back, 2 panicked, 3 the write was refused with an error *)
 Record wprobe := mkwprobe { w_have : list N; w_time : N; w_out : N }.
 
-Record case := mkcase { c_versions : list (version N); c_probes : list probe; c_writes : list wprobe }.
+(* c_requested: in API mode, the key sets asked for through NewIdentityFull / Mutate, one per call that changed
+   something; what git holds (c_versions, read back from the blobs) must be exactly that *)
+Record case := mkcase { c_versions : list (version N); c_requested : option (list (list N)); c_probes : list probe; c_writes : list wprobe }.
 
 Definition memN (x : N) (l : list N) : bool := existsb (N.eqb x) l.
 
@@ -39,7 +42,8 @@ Definition wtime (vs : list (version N)) (w : wprobe) : N := if N.eqb (w_time w)
 
 (* bug.Read does not validate the author, MergeAll does (Bug.Validate -> Identity.Validate): an identity whose clock
    goes backwards or disappears makes every remote bug of that author invalid *)
-Definition model_merge (vs : list (version N)) (p : probe) : N := if id_valid vs None then model_probe vs p else 1.
+(* ... except a commit without operations: Bug.Validate validates the authors of operations, and it has none *)
+Definition model_merge (vs : list (version N)) (p : probe) : N := if id_valid vs None || p_empty p then model_probe vs p else 1.
 Definition probe_agrees (vs : list (version N)) (p : probe) : bool :=
   N.eqb (p_read p) (model_probe vs p) && N.eqb (p_merge p) (model_merge vs p).
 Definition write_agrees (vs : list (version N)) (w : wprobe) : bool :=
@@ -75,14 +79,21 @@ Definition verdict_ok (vs : list (version N)) (p : probe) (v : N) : bool :=
 Definition probe_ok (vs : list (version N)) (p : probe) : bool := verdict_ok vs p (p_read p) && verdict_ok vs p (p_merge p).
 (* git-bug itself must not produce a commit of a keyed author that its reader rejects (nor crash) *)
 Definition write_ok (w : wprobe) : bool := N.eqb (w_out w) 0 || N.eqb (w_out w) 3.
+Fixpoint nlist_eqb (a b : list N) : bool :=
+  match a, b with [], [] => true | x :: a', y :: b' => N.eqb x y && nlist_eqb a' b' | _, _ => false end.
+Fixpoint nll_eqb (a b : list (list N)) : bool :=
+  match a, b with [], [] => true | x :: a', y :: b' => nlist_eqb x y && nll_eqb a' b' | _, _ => false end.
+Definition requested_ok (c : case) : bool :=
+  match c_requested c with None => true | Some r => nll_eqb r (map snd (c_versions c)) end.
+
 Definition C08_ok (c : case) : bool :=
-  forallb (probe_ok (c_versions c)) (c_probes c) && forallb write_ok (c_writes c).
+  forallb (probe_ok (c_versions c)) (c_probes c) && forallb write_ok (c_writes c) && requested_ok c.
 Definition failing (cs : list case) : list nat := index_filter C08_ok 0 cs.
 
 (* sanity: on the model's own verdicts the property checker is satisfied for a chronological history *)
 Example K_C08_self :
   let vs := ex_history in
-  let mk t s a := let p := mkprobe t s a 0 0 in mkprobe t s a (model_probe vs p) (model_probe vs p) in
+  let mk t s a := let p := mkprobe t s a false 0 0 in mkprobe t s a false (model_probe vs p) (model_probe vs p) in
   let ps := flat_map (fun t => flat_map (fun s => [mk t s false; mk t s true]) [None; Some 1; Some 2; Some 3]) [1; 2; 3; 4; 5; 6; 7; 8] in
-  C08_ok (mkcase vs ps [mkwprobe [] 0 (model_write vs [] (after_all vs))]) = true.
+  C08_ok (mkcase vs None ps [mkwprobe [] 0 (model_write vs [] (after_all vs))]) = true.
 Proof. vm_compute. reflexivity. Qed.
